@@ -437,15 +437,16 @@ def readingExists (q : Ctf.Event) : Bool :=
   let syms : List Iv := q.flatMap fun p => (match p.2 with | some i => [(⟨p.1.name, i.star⟩ : Iv)] | none => []) ++ p.1.ivs
   syms.all fun a => syms.all fun b => a.name != b.name || a.star == b.star
 
-/-- is an answered unconditional query inside the hypotheses of `ctfTRu_sound_free_partial` that are decidable
-predicates on the input (no self-intervened variable; the simplified event, valueless items filled, in `ctfSoundClass`;
-a reading of the returned event's values exists)? -/
+/-- is an answered unconditional query inside the hypotheses of `ctfTRu_sound_partial` (Y0/Props/C09Sound.lean) that are
+decidable predicates on the input: every item of the query has a value (the harness reads a valueless item of the QUERY
+as "equal to its base value", C19 and the theorem read it as "no constraint": the two agree when there is none), no
+self-intervened variable, the simplified event in `ctfSoundClass`, and a reading of the returned event's values exists -/
 def ctfTRuInClass (target : MG Name) (domains : List Domain) (event : Ctf.Event) : Bool :=
   match ctfTRu target domains event with
   | .ok (some (_, some ev)) =>
-      event.all (fun p => !Ctf.selfIntervened p.1) &&
-        (match ctfSoundClass target (Ctf.fillEvent ev) with | .ok b => b | .error _ => false) &&
-        readingExists (Ctf.fillEvent ev)
+      event.all (fun p => p.2.isSome) && event.all (fun p => !Ctf.selfIntervened p.1) &&
+        (match ctfSoundClass target ev with | .ok b => b | .error _ => false) &&
+        readingExists ev
   | _ => false
 
 end CtfTr
